@@ -153,7 +153,7 @@ def cases(draw, tier):
             "date": c01.date_to_json(draw(c01.DATES)),
             "reader": draw(st.sampled_from(["load_table", "load_table_gz",
                                             "parse_stringio", "parse_chunks",
-                                            "from_json"])),
+                                            "parse_lines", "from_json"])),
             "chunk": draw(st.integers(1, 40))}
 
 
@@ -185,6 +185,9 @@ def read(text, case, d):
         return load_table(p)
     if how == "parse_stringio":
         return parse_biom_table(io.StringIO(text))
+    if how == "parse_lines":
+        # the lines of the text, as str.splitlines() gives them
+        return parse_biom_table(text.splitlines())
     if how == "parse_chunks":
         k = case["chunk"]
         return parse_biom_table([text[i:i + k]
